@@ -88,18 +88,24 @@ func c05Links() []TNode {
 	add("src-evil/sub/back", "../../src/a", "s")
 	add("src/m", "../out/f", "../out/dir", "a", "l")
 	add("out/dir/l", "../../src/a", "g", "../f", "../../out2/h", "../../out2", "../../src/d", "<W>/src/a", "<W>/out/dir/g")
+	add("out/dir/k", "../../out/dir/g", "../dir/g", "./g", "../../out/dir") // stays inside the external directory, by way of its own name
 	return ns
 }
 
 type packOpt struct {
 	Ignore, Deref, AllowOut bool
+	AllowEmpty              bool // an empty allow-list entry
 	UID                     int
 	Reuse                   bool // the same *Packer packed another tree first
 	PreFails                bool // ... and that earlier Pack failed half-way
 }
 
 func (o packOpt) String() string {
-	return fmt.Sprintf("ignore=%v deref=%v allow_out=%v uid=%d reuse=%v earlier-pack-failed=%v", o.Ignore, o.Deref, o.AllowOut, o.UID, o.Reuse, o.PreFails)
+	s := fmt.Sprintf("ignore=%v deref=%v allow_out=%v uid=%d reuse=%v earlier-pack-failed=%v", o.Ignore, o.Deref, o.AllowOut, o.UID, o.Reuse, o.PreFails)
+	if o.AllowEmpty {
+		s += " allow-empty-entry=true"
+	}
+	return s
 }
 
 // expected omissions under the built-in rules / a rule file for C02
@@ -478,7 +484,7 @@ func RunPackTrees(id, tier string) int {
 			opt := opt
 			args := make([]PackArg, len(trees))
 			pool(opt.UID).Map("pack", len(trees), func(i int) any {
-				args[i] = PackArg{Nodes: trees[i], Ignore: opt.Ignore, Deref: opt.Deref, AllowOut: opt.AllowOut, Roundtrip: id != "C20", UID: opt.UID, Reuse: opt.Reuse, PreFails: opt.PreFails}
+				args[i] = PackArg{Nodes: trees[i], Ignore: opt.Ignore, Deref: opt.Deref, AllowOut: opt.AllowOut, AllowEmpty: opt.AllowEmpty, Roundtrip: id != "C20", UID: opt.UID, Reuse: opt.Reuse, PreFails: opt.PreFails}
 				return args[i]
 			}, func(i int, r core.Result) {
 				var out PackOut
@@ -543,8 +549,9 @@ func RunPackTrees(id, tier string) int {
 		// attribute deviations (E2): one (quick) / two (thorough) nodes carry a non-default mode or mtime fraction
 		base := tarx.BaseTime.UnixNano()
 		devs := []TNode{{Mode: -1}, {Mode: 0444}, {Mode: 0600}, {Mode: 0755}, {Mode: 0777}, {Mode: 0500},
-			{MTime: base + 400e6}, {MTime: base + 500e6}, {MTime: base + 600e6}, {MTime: base + 86400e9 + 999e6}}
-		devAlpha := []TNode{alpha[0], alpha[9], alpha[11], alpha[13], alpha[15], alpha[2]} // a, d/a, d, emptydir, l, empty
+			{MTime: base + 400e6}, {MTime: base + 500e6}, {MTime: base + 600e6}, {MTime: base + 86400e9 + 999e6},
+			{MTime: -5e9 - 250e6}, {MTime: 1e9}, {MTime: 8589934592e9 + 5e8}} // before the epoch; second 1; beyond the 33-bit octal field of a ustar header
+		devAlpha := []TNode{alpha[0], alpha[9], alpha[11], alpha[13], alpha[15], alpha[2], alpha[6], alpha[7]} // a, d/a, d, emptydir, l, empty, ü, 120-byte name (both need extended headers)
 		var devTrees [][]TNode
 		small := combos(devAlpha, 2, nil)
 		if thorough {
@@ -612,6 +619,7 @@ func RunPackTrees(id, tier string) int {
 		if !thorough {
 			opts = []packOpt{{}, {Deref: true}, {AllowOut: true}, {Deref: true, AllowOut: true}, {Ignore: true, Deref: true}}
 		}
+		opts = append(opts, packOpt{AllowEmpty: true})
 		runSet(fmt.Sprintf("skeleton+<=%d-links", k), trees, opts)
 		var t1 [][]TNode
 		for _, t := range trees {
@@ -655,6 +663,25 @@ func RunPackTrees(id, tier string) int {
 		planStats = append(planStats, map[string]any{"set": "relative-allow-list × reused packer", "runs": len(relCases)})
 	}
 	if id == "C20" {
+		// files large enough to leave any small-file fast path (> 1 MiB), in the tree and behind a dereferenced link
+		bigTrees := [][]TNode{
+			{{Path: "src/a", Kind: "file", Body: "aaaa"}, {Path: "src/big", Kind: "file", Body: "<NOISE:1600000>"}},
+			{{Path: "src/l", Kind: "link", Target: "../out/big"}, {Path: "out/big", Kind: "file", Body: "<NOISE:1048577>"}, {Path: "src/exact", Kind: "file", Body: "<NOISE:1048576>"}},
+			{{Path: "src/ld", Kind: "link", Target: "../out/dir"}, {Path: "out/dir/big", Kind: "file", Body: "<NOISE:1100000>"}},
+		}
+		var bjobs []PackArg
+		for _, t := range bigTrees {
+			for _, de := range []bool{false, true} {
+				bjobs = append(bjobs, PackArg{Nodes: t, Deref: de, AllowOut: true, NoTrees: true})
+			}
+		}
+		pool(0).Map("pack", len(bjobs), func(i int) any { return bjobs[i] }, func(i int, r core.Result) {
+			var out PackOut
+			core.MustOut(r, &out)
+			judge(bjobs[i], out, packOpt{Deref: bjobs[i].Deref, AllowOut: true})
+		})
+		rep.States += len(bjobs)
+		planStats = append(planStats, map[string]any{"set": "files above 1 MiB", "runs": len(bjobs)})
 		// E2: the tree changes while Pack runs. One deviation per run: at the k-th call of
 		// the output writer one regular file is cut or extended. Whenever Pack still
 		// reports success, the returned Meta must describe the slug it wrote.
